@@ -110,7 +110,8 @@ def lowest_iter_sort(l, pkg_grabber=pkg_grabber):
     return l
 
 
-class MutableContainmentRestriction(values.base):
+# the blacklist is a live, mutable set: instances must not be cached by argument.
+class MutableContainmentRestriction(values.base, caching=False):
     __slots__ = ("_blacklist", "match")
 
     def __init__(self, blacklist):
